@@ -6,6 +6,7 @@ Import ListNotations.
 
 Inductive case :=
 | KLin (al be rtol : Q) (ra rb rab : list (list Q))        (* rab = al*ra + be*rb row by row *)
+| KLinT (al be : Q) (tols : list Q) (ra rb rab : list (list Q))   (* same, with an explicit absolute tolerance per row *)
 | KPrefix (k : nat) (rtol : Q) (m1 m2 : list (list Q))      (* first k samples of every row coincide *)
 | KShift (k : nat) (rtol : Q) (mshort mlong : list (list Q))(* mlong row = k zeros ++ mshort row *)
 | KRows (idx : list nat) (rtol : Q) (mall msub : list (list Q)) (* msub_j = mall_(idx_j) *)
@@ -30,6 +31,9 @@ Definition check_case (c : case) : bool :=
   match c with
   | KLin al be rtol ra rb rab =>
       all3 (fun a b ab => close_list (rtol * (Qabs al * qabsmax a + Qabs be * qabsmax b)) (qlin al be a b) ab) ra rb rab
+  | KLinT al be tols ra rb rab =>
+      Nat.eqb (length tols) (length rab) &&
+      all3 (fun tab a b => close_list (fst tab) (qlin al be a b) (snd tab)) (map2 pair tols rab) ra rb
   | KPrefix k rtol m1 m2 =>
       all2 (fun a b => close_list (rtol * qabsmax a) (firstn k a) (firstn k b)) m1 m2
   | KShift k rtol ms ml =>
